@@ -3,6 +3,7 @@ package main
 import (
 	"fmt"
 	"reflect"
+	"unsafe"
 
 	"gorgonia.org/tensor"
 )
@@ -107,6 +108,29 @@ func dataHash(t *tensor.Dense) uint64 {
 	}
 	if isPointerDt(t.Dtype()) {
 		return fnvU64(h, uint64(len(raw)))
+	}
+	// NaNs are compared as NaNs, not by payload and sign: which payload an arithmetic kernel
+	// propagates depends on operand order inside vectorised loops, which depends on the alignment
+	// of the allocation - no two executions agree on it, and no property is about it.
+	switch t.Dtype() {
+	case tensor.Float32, tensor.Complex64:
+		fs := unsafe.Slice((*uint32)(unsafe.Pointer(&raw[0])), len(raw)/4)
+		for _, b := range fs {
+			if b&0x7f800000 == 0x7f800000 && b&0x007fffff != 0 {
+				b = 0x7fc00000
+			}
+			h = fnvU64(h, uint64(b))
+		}
+		return h
+	case tensor.Float64, tensor.Complex128:
+		fs := unsafe.Slice((*uint64)(unsafe.Pointer(&raw[0])), len(raw)/8)
+		for _, b := range fs {
+			if b&0x7ff0000000000000 == 0x7ff0000000000000 && b&0x000fffffffffffff != 0 {
+				b = 0x7ff8000000000000
+			}
+			h = fnvU64(h, b)
+		}
+		return h
 	}
 	return fnvBytes(h, raw)
 }
